@@ -66,6 +66,11 @@ def exitMon (m n : Nat) (h : Holder) (i : Nat) : Holder :=
   let h1 := { h with mons := upd h.mons i .exited }
   if cnt n (isExited h1) ≥ m then { h1 with cancelled := true } else h1
 
+/-- `if atomic.AddInt32(&leaving, 1) >= m.majority { cancel() }` — the decision monitoring() takes
+BEFORE its delkey (repair 04be27c): this monitor counts as leaving already -/
+def preExit (m n : Nat) (h : Holder) (i : Nat) : Holder :=
+  if cnt n (isExited { h with mons := upd h.mons i .exited }) ≥ m then { h with cancelled := true } else h
+
 /-- register `i` was written: the invalidation reaches every waiter that tracks it (tracking
 started with the GET of its refused attempt) and leaves a gate token (`select { case g.ch <- …:
 default: }` on a channel of capacity 1). A waiter on the writer's own NOLOOP connection gets its
@@ -118,7 +123,8 @@ def next (s : Sys) : Ev → Sys
   | .monErr v i =>
     let h := s.hs v
     if h.mons i = .running then
-      -- `if !errors.Is(err, ErrNotLocked) { delkey }` comes before `released++ … cancel()`
+      -- `leaving++ >= majority → cancel()` (see `delState`), `if !errors.Is(err, ErrNotLocked) { delkey }`,
+      -- then `released++` (and the late cancel(), which is idempotent)
       let r := delScript v (s.regs i)
       { s with regs := upd s.regs i r.1, ws := if r.2 then notify s.ws i else s.ws,
                hs := upd s.hs v (exitMon s.m s.n h i) }
@@ -138,6 +144,11 @@ def next (s : Sys) : Ev → Sys
   | .wake w =>
     let x := s.ws w
     if x.parked = true ∧ x.token = true then { s with ws := upd s.ws w { x with parked := false, token := false } } else s
+
+/-- the state in which monitor `i` of `v` issues its DEL on the error path: after the `leaving`
+decision, before the deletion (the event `monErr` is this decision, the DEL and `released++` in
+one step; its end state is the same with or without the early decision) -/
+def delState (s : Sys) (v i : Nat) : Sys := setH s v (preExit s.m s.n (s.hs v) i)
 
 def run (s : Sys) : List Ev → Sys
   | [] => s
